@@ -853,7 +853,13 @@ func (e *Engine) verifyFuncMode(fn *ssa.Function, ct *Contract, sweep bool, prop
 		for _, c := range ct.Callsites {
 			if x.nameCount[fmt.Sprintf("callsite-hit:%d", c.Line)] == 0 {
 				e.specErrs = append(e.specErrs, fmt.Sprintf("%s:%d: callsite clause matches no call in %s", c.File, c.Line, fn.String()))
+				continue
 			}
+			lbl := c.Label
+			if lbl == "" {
+				lbl = fmt.Sprintf("L%d", c.Line)
+			}
+			x.obligeCasesIdx("callsite", lbl, x.csCases[c.Line], "call-site condition of "+c.Target+": "+c.Text, fn.Pos(), true)
 		}
 	}
 	for _, r := range ct.Reveal {
